@@ -332,8 +332,9 @@ def noll_rules(chk, repo, clause):
             continue
         seen_par.add(par[0])
         want_pre = Tup([C(1), C(1)], 'list') if par[0] else Tup([C(0)], 'list')
-        if lp['pre'].get('row_m') != want_pre:
-            ok_row, det_row = False, f'row for {"odd" if par[0] else "even"} n starts {lp["pre"].get("row_m")!r}'
+        lists = [v for v in lp['pre'].values() if isinstance(v, Tup) and v.kind == 'list']
+        if want_pre not in lists:
+            ok_row, det_row = False, f'row for {"odd" if par[0] else "even"} n starts {lists[0] if lists else None!r}'
         it = lp['iter'].single_atom() if isinstance(lp['iter'], Poly) else None
         if it is None or not is_app(it, 'range') or tuple(it[2]) != (nf.floor(n_ref / 2),):
             ok_row, det_row = False, f'row is extended {fmt(lp["iter"])} times; Noll: floor(n/2) pairs'
